@@ -68,11 +68,14 @@ Qed.
 
 Lemma time_step_frame c s t s' o :
   sstep c s (STime t) = Some (s', o) ->
-  s_now s <= t /\ s_now s' = t /\ s_loop s' = s_loop s /\ s_parts s' = s_parts s /\ s_timers s' = s_timers s
+  s_now s <= t /\ s_now s' = t /\ (forall p i, s_loop s' = SCalling p i <-> s_loop s = SCalling p i)
+  /\ s_parts s' = s_parts s /\ s_timers s' = s_timers s
   /\ s_stop_req s' = s_stop_req s.
 Proof.
-  simpl. unfold do_stime. intro H. destruct ((s_now s <=? t) && expiries_ok c s t) eqn:E; [|discriminate].
-  some_inv H. bool_hyps. simpl. repeat split; try reflexivity. now apply Z.leb_le.
+  simpl. unfold do_stime. intro H. destruct ((s_now s <=? t) && expiries_ok c s t && pace_ok c s t) eqn:E; [|discriminate].
+  some_inv H. apply andb_prop in E. destruct E as [E _]. apply andb_prop in E. destruct E as [E _].
+  simpl. repeat split; try reflexivity; try (now apply Z.leb_le);
+    unfold rest_loop; destruct (s_loop s); try (destruct (must_act s)); congruence.
 Qed.
 
 (* ------------------------------------------------------------------ the invariant *)
@@ -241,7 +244,7 @@ Proof.
     ysplit.
     + intros i s H. destruct (F i s H) as (s0 & o0 & A & B).
       destruct (time_step_frame c s0 t s o0 B) as (_ & T2 & T3 & _). split; [exact T2|].
-      intros p t0 L. rewrite T3 in L. pose proof (proj2 (I1 i s0 A) p t0 L). lia.
+      intros p t0 L. apply T3 in L. pose proof (proj2 (I1 i s0 A) p t0 L). lia.
     + intros i s H. destruct (F i s H) as (s0 & o0 & A & B). eapply notstarted_step; [apply (I0 i s0 A)|exact B].
     + intros i s p e A B. destruct (F i s A) as (s0 & o0 & A0 & B0).
       destruct (time_step_frame c s0 t s o0 B0) as (_ & _ & _ & T4 & _). rewrite T4 in B.
@@ -253,7 +256,7 @@ Proof.
         assert (i < length (y_insts y))%nat by (apply nth_error_Some; congruence). lia. }
       destruct X as (s1 & X). destruct (F i s1 X) as (s2 & o2 & A2 & B2').
       rewrite B1 in A2. inv A2. destruct (time_step_frame c s2 t s1 o2 B2') as (_ & _ & T3 & _).
-      exists s1, p0, t0. repeat split; try assumption; [congruence|].
+      exists s1, p0, t0. repeat split; try assumption; [apply T3; exact B2|].
       destruct B4 as [B4|B4]; [now left|right; lia].
 Qed.
 
